@@ -253,6 +253,37 @@ def raiser(a, b=2):
   if a > 0:
     raise KeyError(a)
   return ('raiser', a)
+
+
+class PassThrough(Exception):
+  """An exception that asks the error-rewriting machinery to leave it alone."""
+  ag_pass_through = True
+
+
+def raiser_passthrough(a, b=2):
+  LOG.append(('raiser_passthrough', a, b))
+  if a > 0:
+    raise PassThrough(a)
+  return ('raiser_passthrough', a)
+
+
+nested2 = make_nested(9)     # a second closure of the same code object
+
+STAR_OBJ = C.__new__(C)
+STAR_OBJ.w, STAR_OBJ.tag = 6, 'star'
+STAR_PART = functools.partial(fn, c=4)
+
+
+def star_caller(a, b=2):
+  LOG.append(('star_caller', a, b))
+  xs = [a, b]
+  r1 = fn(*xs)
+  r2 = STAR_OBJ.meth(*xs)
+  r3 = STAR_PART(*xs)
+  r4 = STAR_OBJ(*xs)
+  kw = {'b': b}
+  r5 = nested(a, **kw)
+  return ('star', r1, r2, r3, r4, r5)
 '''
 
 # a module that lives under an allow-listed / look-alike *name*
@@ -421,6 +452,9 @@ def build_pool(lane, which):
   add('forelse', 'unsupported', U.forelse, fnname='forelse')
   add('caller', 'function', U.caller, fnname='caller')
   add('raiser', 'function', U.raiser, fnname='raiser')
+  add('raiser_passthrough', 'function', U.raiser_passthrough, fnname='raiser_passthrough')
+  add('nested2', 'function', U.nested2, fnname='nested')
+  add('star_caller', 'function', U.star_caller, fnname='star_caller')
   # partials
   add('partial1', 'partial', functools.partial(U.fn, 1), argsets='b_only', inner='function', fnname='fn')
   add('partial_nested', 'partial',
@@ -657,7 +691,7 @@ def _gen_fault(rng, tier):
   return {'kind': 'disk-full', 'budget': rng.choice([0, 10, 200, 1000])}
 
 
-CONVERTIBLE = ['caller', 'caller', 'falsy_bag_method', 'falsy_obj_method', 'nt_method', 'metaclass_call', 'slotted_callable', 'manual_bound', 'fn', 'lam', 'nested', 'bound', 'unbound', 'cmeth', 'cmeth_inst', 'smeth', 'callable',
+CONVERTIBLE = ['caller', 'caller', 'star_caller', 'nested2', 'raiser_passthrough', 'raiser', 'falsy_bag_method', 'falsy_obj_method', 'nt_method', 'metaclass_call', 'slotted_callable', 'manual_bound', 'fn', 'lam', 'nested', 'bound', 'unbound', 'cmeth', 'cmeth_inst', 'smeth', 'callable',
                'decorated', 'caller', 'raiser', 'partial1', 'partial_nested', 'partial_method',
                'partial_chain', 'partial_chain3', 'partial_subclass',
                'mod:malty', 'mod:numpy_like', 'mod:reporting', 'mod:copyx', 'np_sub_overridden',
@@ -979,6 +1013,15 @@ class Run(object):
     elif exp_conv is False and requested:
       self.viol('T2', '%s: policy says do not convert (%s), but a conversion of %s was requested'
                 % (where, cell, t.fnname), 'converted-%s' % (t.label if t.label != 'partial' else t.inner))
+    # ---- T6 nothing poisoned ---------------------------------------------------------------
+    # no failure was injected into this operation and the target is an ordinary
+    # convertible one that was never remembered: a fallback here means an
+    # earlier failure left something behind (or a running target's own
+    # exception was mistaken for a conversion failure)
+    if fault is None and not op.get('strict') and exp_conv is True and t.label in ('function', 'lambda', 'callable_obj') \
+        and any(fid_ == _rem_id(t.a) for fid_, _, _ in fallbacks):
+      self.viol('T6', '%s: fell back to the unconverted target although nothing failed in this operation (%s)'
+                % (where, [x[2] for x in fallbacks]), 'spurious-fallback')
     if requested and converted:
       self.stats['converted_ops'] += 1
     # T6 recovery is implicit: a target whose conversion failed under other options reaches T2 here
